@@ -688,11 +688,6 @@ def crosscheck(ctx, u, name, lhs, flat, k=60):
                       {"input": "corr:C18/%s/extraction-crosscheck" % name, "log": fails[0]}, no_failing_input=True)
 
 
-def links_domain(recs):
-    """the time-0 wrap-around of record_links (known finding) is outside the generated domain"""
-    return all(r[T] != 0 for r in recs)
-
-
 def unit_record_links(ctx):
     u = Unit(ctx, "record_links")
     rng = ctx.rng
@@ -711,7 +706,7 @@ def unit_record_links(ctx):
     # exhaustive: <= 4 records, 2 channels, times on a grid of multiples of spr*dt/2, record_i in {0,1,2}
     spr, dt = 4, 1
     nmax = 4 if big_budget(ctx) else 3
-    grid = [2, 4, 6, 8, 10]
+    grid = [0, 2, 4, 6, 8]   # includes time 0 (the fixed defect d422fcc lived there)
     for n in range(1, nmax + 1):
         for times in itertools.combinations_with_replacement(grid, n):
             for chs in itertools.product([0, 1], repeat=n):
@@ -720,7 +715,7 @@ def unit_record_links(ctx):
                     one(recs, spr, "exhaustive-n%d" % n)
     for i in range(20000 if ctx.thorough else 4000):
         spr = rng.choice(sprs(ctx))
-        recs, _ = random_scenario(rng, spr, [1, 2])
+        recs, _ = random_scenario(rng, spr, [1, 2], t_min=rng.choice([0, 0, 5]))
         if i % 50 == 0 and recs:
             j = rng.randrange(len(recs))
             recs[j] = recs[j][:CH] + (-1,) + recs[j][CH + 1:]
@@ -736,8 +731,8 @@ TIME0_WITNESS = {"spr": 4, "records": [(0, 4, 1, 0, 8, 1, 0, 0, 0, 0, 0, (1, 1, 
 
 
 def unit_record_links_time0(ctx):
-    """The faithful model refutes the unrestricted linking statement (C18_record_links_time0_refuted):
-    replay the witness on the real code."""
+    """Regression for the defect repaired by /repo d422fcc (documented by C18_record_links_time0_refuted_pinned):
+    replay the witness of the pinned snapshot on the real code; it must satisfy the linking statement now."""
     inp = TIME0_WITNESS
     recs = [tuple(r) for r in inp["records"]]
     res = impl_record_links(recs, inp["spr"])
@@ -796,7 +791,7 @@ def unit_cut_outside_hits(ctx):
     # (ii) random scenarios, hits from strax.find_hits itself (pipeline) or synthetic
     for i in range(30000 if ctx.thorough else 5000):
         spr = rng.choice(sprs(ctx))
-        recs, n_ch = random_scenario(rng, spr, [1, 2, 3, 5], pad=rng.choice([0, 0, 0, 7]))
+        recs, n_ch = random_scenario(rng, spr, [1, 2, 3, 5], pad=rng.choice([0, 0, 0, 7]), t_min=rng.choice([0, 5]))
         if not recs:
             continue
         le, re = rng.randint(0, spr), rng.randint(0, spr)
